@@ -228,6 +228,7 @@ func init() {
 }
 
 func genC19(tier string, r *rng) {
+	genPgpSig(tier, r.fork()) // tie of Model/PgpSig.lean: what a signature tag's packet is read as (issuer, algorithms)
 	genRpmGuard(tier, r)
 	n := 300
 	if tier == "thorough" {
